@@ -1,6 +1,7 @@
 import Rpcx.Model.Select
 import Rpcx.Props.C12
 import Rpcx.Lemmas.ConsistentHash
+import Rpcx.Model.SelectMore
 /-
   C11: selectors return only live, eligible servers and never crash – theorems about the
   selector models (regenerated round-robin cursor, hand-written weighted ring and doublejump).
@@ -293,5 +294,95 @@ theorem ch_removed_never_selected (jh : Nat → Nat → Nat) (hj : JumpOK jh) (k
 
 /-- non-vacuity: construct, replace two servers, drop one – the holder is in step with [b, d] -/
 example : ((([["b", "c", "d"], ["d", "b"]] : List (List String)).foldl CH.update (CH.new ["a", "b"])).servers) = ["b", "d"] := by decide
+
+/-! ### the strategies with a random choice: random and closest (for EVERY value of the random source) -/
+
+/-- the random selector returns "" exactly without servers and otherwise a server of the current set –
+    whatever the random source returns -/
+theorem random_select_live (ss : List String) (rnd : Nat) :
+    (ss = [] → randomSelect ss rnd = "") ∧ (ss ≠ [] → randomSelect ss rnd ∈ ss) := by
+  constructor
+  · intro h; simp [randomSelect, h]
+  · intro h
+    have hlen : 0 < ss.length := List.length_pos_iff.mpr h
+    have hlt : rnd % ss.length < ss.length := Nat.mod_lt _ hlen
+    have hne : ss.isEmpty = false := by cases ss <;> simp_all
+    simp only [randomSelect, hne, Bool.false_eq_true, if_false, List.getD_eq_getElem?_getD,
+      List.getElem?_eq_getElem hlt, Option.getD_some]
+    exact List.getElem_mem hlt
+
+theorem geoScan_sub : ∀ (ss : List (String × Nat)) (m : Nat) (c : List String),
+    ∀ x ∈ (geoScan ss m c).1, x ∈ c ∨ x ∈ ss.map (·.1)
+  | [], m, c, x, hx => by simp [geoScan] at hx; exact Or.inl hx
+  | (s, d) :: rest, m, c, x, hx => by
+    simp only [geoScan] at hx
+    split at hx
+    · rcases geoScan_sub rest d [s] x hx with h | h
+      · right; simp at h; simp [h]
+      · right; simp only [List.map_cons, List.mem_cons]; exact Or.inr h
+    · split at hx
+      · rcases geoScan_sub rest m (c ++ [s]) x hx with h | h
+        · simp only [List.mem_append, List.mem_singleton] at h
+          rcases h with h | h
+          · exact Or.inl h
+          · right; simp [h]
+        · right; simp only [List.map_cons, List.mem_cons]; exact Or.inr h
+      · rcases geoScan_sub rest m c x hx with h | h
+        · exact Or.inl h
+        · right; simp only [List.map_cons, List.mem_cons]; exact Or.inr h
+
+theorem geoScan_nonempty (max : Nat) : ∀ (ss : List (String × Nat)) (m : Nat) (c : List String),
+    (∀ e ∈ ss, e.2 ≤ max) → (c ≠ [] ∨ (m = max ∧ ss ≠ [])) → (geoScan ss m c).1 ≠ []
+  | [], m, c, _, h => by
+    rcases h with h | ⟨_, h⟩
+    · simpa [geoScan] using h
+    · exact absurd rfl h
+  | (s, d) :: rest, m, c, hle, h => by
+    have hd : d ≤ max := hle (s, d) (by simp)
+    have hrest : ∀ e ∈ rest, e.2 ≤ max := fun e he => hle e (by simp [he])
+    simp only [geoScan]
+    split
+    · exact geoScan_nonempty max rest d [s] hrest (Or.inl (by simp))
+    · split
+      · exact geoScan_nonempty max rest m (c ++ [s]) hrest (Or.inl (by simp))
+      · rename_i h1 h2
+        rcases h with h | ⟨hm, _⟩
+        · exact geoScan_nonempty max rest m c hrest (Or.inl h)
+        · exfalso; omega
+
+/-- **the closest selector never crashes and returns a server of the current set**: for every list of
+    servers with (mapped) distances ≤ the largest finite value and every value of the random source,
+    the candidate list is not empty, the index is in range, and the result is one of the servers; ""
+    exactly when there is no server with coordinates -/
+theorem geo_select_live (max : Nat) (ss : List (String × Nat)) (rnd : Nat) (hle : ∀ e ∈ ss, e.2 ≤ max) :
+    (ss = [] → geoSelect max ss rnd = some "")
+    ∧ (ss ≠ [] → ∃ s, geoSelect max ss rnd = some s ∧ s ∈ ss.map (·.1)) := by
+  constructor
+  · intro h; simp [geoSelect, h]
+  · intro h
+    have hne : ss.isEmpty = false := by cases ss <;> simp_all
+    have hc := geoScan_nonempty max ss max [] hle (Or.inr ⟨rfl, h⟩)
+    have hsub := geoScan_sub ss max []
+    simp only [geoSelect, hne, Bool.false_eq_true, if_false]
+    have hlen : 0 < (geoScan ss max []).1.length := List.length_pos_iff.mpr hc
+    split
+    · refine ⟨(geoScan ss max []).1[0], by rw [List.getElem?_eq_getElem hlen], ?_⟩
+      rcases hsub _ (List.getElem_mem hlen) with h | h
+      · simp at h
+      · exact h
+    · have hce : (geoScan ss max []).1.isEmpty = false := by
+        cases hq : (geoScan ss max []).1 with
+        | nil => exact absurd hq hc
+        | cons _ _ => rfl
+      simp only [hce, Bool.false_eq_true, if_false]
+      have hlt : rnd % (geoScan ss max []).1.length < (geoScan ss max []).1.length := Nat.mod_lt _ hlen
+      refine ⟨(geoScan ss max []).1[rnd % (geoScan ss max []).1.length], by rw [List.getElem?_eq_getElem hlt], ?_⟩
+      rcases hsub _ (List.getElem_mem hlt) with h | h
+      · simp at h
+      · exact h
+
+/-- non-vacuity: three servers, two at the smallest distance – both are candidates, in slice order -/
+example : (geoScan [("a", 7), ("b", 3), ("c", 3)] 100 []).1 = ["b", "c"] ∧ geoSelect 100 [("a", 7), ("b", 3), ("c", 3)] 5 = some "c" := by decide
+
 
 end Rpcx.Props.C11
